@@ -37,6 +37,14 @@ func profileByName(name string) Profile {
 		p.PFault, p.InvokeFaults, p.PCallback = 0.3, true, 0.4
 		p.PGap, p.PBackEdge, p.PInvalid = 0.03, 0.03, 0.02
 		p.Invokes = [2]int{4, 10}
+	case "faultbase":
+		p.PGap, p.PBackEdge, p.PInvalid, p.PDup, p.PDecorate, p.PCallback = 0.02, 0.02, 0, 0.02, 0.35, 0.3
+		p.MinFns, p.MaxFns = 2, 8
+		p.Invokes = [2]int{2, 5}
+	case "cbbase":
+		p.PGap, p.PBackEdge, p.PInvalid, p.PDup, p.PDecorate, p.PCallback = 0.02, 0.02, 0, 0.02, 0.35, 0.8
+		p.MinFns, p.MaxFns = 2, 8
+		p.Invokes = [2]int{2, 5}
 	case "faultsdecor":
 		p.PFault, p.InvokeFaults, p.PCallback = 0.3, true, 0.4
 		p.PDecorate, p.PGap, p.PBackEdge, p.PInvalid = 0.7, 0.03, 0.03, 0.02
@@ -101,7 +109,7 @@ func jobsFor(prop, tier string) []JobSpec {
 	case "C04":
 		return []JobSpec{{"hist:gapped", n(40000, 2000000)}, {"hist:scopes", n(10000, 500000)}}
 	case "C07":
-		return []JobSpec{{"hist:faults", n(30000, 1500000)}, {"hist:faultsdecor", n(20000, 1000000)}}
+		return []JobSpec{{"faultenum:faultbase", n(300*faultSlots, 12000*faultSlots)}, {"hist:faults", n(20000, 1000000)}, {"hist:faultsdecor", n(15000, 700000)}}
 	case "C08":
 		return []JobSpec{{"hist:scopes", n(50000, 2500000)}}
 	case "C09":
@@ -113,13 +121,13 @@ func jobsFor(prop, tier string) []JobSpec {
 	case "C12":
 		return []JobSpec{{"hist:decor", n(40000, 2000000)}, {"hist:faultsdecor", n(10000, 500000)}}
 	case "C13":
-		return []JobSpec{{"hist:faults", n(25000, 1200000)}, {"hist:rejects", n(25000, 1200000)}}
+		return []JobSpec{{"faultenum:faultbase", n(250*faultSlots, 10000*faultSlots)}, {"hist:faults", n(15000, 700000)}, {"hist:rejects", n(25000, 1200000)}}
 	case "C18":
 		return []JobSpec{{"hist:info", n(40000, 2000000)}, {"pool:pinfo", n(20000, 1000000)}}
 	case "C19":
 		return []JobSpec{{"pool:pviz", n(40000, 2000000)}, {"hist:viz", n(20000, 1000000)}}
 	case "C20":
-		return []JobSpec{{"hist:callbacks", n(35000, 1800000)}, {"pool:pcallbacks", n(25000, 1200000)}}
+		return []JobSpec{{"faultenum:cbbase", n(250*faultSlots, 10000*faultSlots)}, {"hist:callbacks", n(25000, 1200000)}, {"pool:pcallbacks", n(20000, 1000000)}}
 	}
 	return extraJobs(prop, tier)
 }
